@@ -36,6 +36,11 @@ CLAIMED = {
    text="TLC enumerates every history over {print, dump x4 option sets, traverse, resolve} up to length 3 (quick) / length 5 over the four base observers plus length 3 over all seven (thorough) and checks Pure/SameAsFresh on the specification; each history is replayed on the tree of each program: after every operation its output must equal its output on a freshly parsed tree and the deep fingerprint (kinds, fields, values, tokens, positions, free-floating lists, slice len/cap contents, object identities) and the source buffer must be unchanged.",
    note="Trusted: reflection fingerprint in harness/cmd/worker/history.go. Histories are bounded; programs come from the corpus and generated programs.",
    design="5 (C13), 3.8"),
+ "C01": dict(
+   technique="input space generated from the TLA+ scanner specification Lexer.tla (TLC transition cover of the mode/call-stack machine; invariants StackDiscipline, Progress) concretised by a lexicon, plus byte prefixes and random byte soup; every input executed on the real parser in killable child processes under a deadline (replay, spec -> impl)",
+   text="TLC explores the abstract scanner machine of Lexer.tla (15 modes x call-stack shapes x ~90 (quick) / ~250 (thorough) lexeme atoms) exhaustively up to the stack bound, checks TypeOK/StackDiscipline/Progress/TriviaTransparent on it and emits one behaviour per transition; each is concretised to bytes and, together with every truncation of its last lexeme and a trailing lone CR, every byte prefix of the corpus programs and a seeded random byte stream, parsed by the real code under >= 3 (version, callback) combinations with a 2 s + 50 us/byte deadline and a heap limit. Verdict = the property itself (no panic, no hang, input buffer unchanged); thorough adds a scaling ratio t(4n)/t(n). Right level: crashes here live at end-of-input inside specific lexical states, which the specification enumerates systematically.",
+   note="Trusted: watchdog in harness/cmd/worker/main.go, lexicon spellings. TLA+ contributes the input space and Progress; the timing clause is a measurement (generous bound 12x for 4x input). One known finding (empty heredoc under >= 7.3, pinned by existing tests).",
+   design="5 (C01), 3.3"),
 }
 
 REASONS_PENDING = "check not built yet in this round; see DESIGN.md section 9 for the construction order"
